@@ -200,6 +200,23 @@ impl Ref {
     }
 }
 
+/// Twins generated by ONE macro_rules! invocation: identical signature text, and file!() / line!() / column!()
+/// all resolve to the single invocation site; only the module path tells them apart.
+macro_rules! generated_twins {
+    ($($m:ident => $node:literal),*) => {
+        $(
+            mod $m {
+                use super::*;
+                #[memo(raw)]
+                pub fn twin(db: &TestDb) -> u8 {
+                    run_body(db, $node, None)
+                }
+            }
+        )*
+    };
+}
+generated_twins!(c => "twin:c", d => "twin:d");
+
 /// Calls the memoized function for node `n`; returns (value, MemoRef if the function is raw).
 fn call_node(db: &TestDb, n: &str, memo_arg: Option<MemoRef<u8>>) -> (u8, Option<Ref>) {
     match n {
@@ -226,6 +243,8 @@ fn call_node(db: &TestDb, n: &str, memo_arg: Option<MemoRef<u8>>) -> (u8, Option
         "pair" => return (*pair(db), None),
         "twin:a" => a::twin(db),
         "twin:b" => b::twin(db),
+        "twin:c" => c::twin(db),
+        "twin:d" => d::twin(db),
         "refUser" => ref_user(db),
         _ => panic!("harness: unknown node {n}"),
     };
